@@ -179,7 +179,7 @@ func forwardCase(in ref.Instr, xs []*ref.T, exact bool) string {
 }
 
 type fcase struct {
-	In  ref.Instr   `json:"instr"`
-	Ops []*ref.T    `json:"operands"`
-	Tag string      `json:"tag,omitempty"`
+	In  ref.Instr `json:"instr"`
+	Ops []*ref.T  `json:"operands"`
+	Tag string    `json:"tag,omitempty"`
 }
